@@ -160,8 +160,15 @@ func Scaffold(p *Package, genSrc []byte, importPath string) (implSrc, mainSrc st
 	}
 	var impl, drv bytes.Buffer
 	var implNames []string
+	// the stub templates spell the interface name as in the IDL (pinned tree) or title-cased
+	stubName := func(it *Iface) string {
+		if _, ok := g.ifaces[it.Name+"Implementor"]; ok {
+			return it.Name
+		}
+		return cleanName(it.Name)
+	}
 	for _, it := range p.Ifaces {
-		implNames = append(implNames, it.Name+"Implementor")
+		implNames = append(implNames, stubName(it)+"Implementor")
 	}
 	fmt.Fprintf(&impl, "package %s\n\nimport (\n", g.f.Name.Name)
 	for _, a := range g.usedImports(implNames) {
@@ -181,8 +188,8 @@ func Scaffold(p *Package, genSrc []byte, importPath string) (implSrc, mainSrc st
 				props = append(props, a)
 			}
 		}
-		im, ok1 := g.methods(it.Name + "Implementor")
-		hm, ok2 := g.methods(it.Name + "SignalHelper")
+		im, ok1 := g.methods(stubName(it) + "Implementor")
+		hm, ok2 := g.methods(stubName(it) + "SignalHelper")
 		pm, ok3 := g.methods(cleanName(it.Name) + "Proxy")
 		if !ok1 || !ok2 || !ok3 {
 			return "", "", fmt.Errorf("generated file lacks the interfaces of %s", it.Name)
@@ -215,7 +222,7 @@ func Scaffold(p *Package, genSrc []byte, importPath string) (implSrc, mainSrc st
 			}
 		}
 		fmt.Fprintf(&drv, "\td.Add(rt.Iface{Name: %q, Key: %q, Actor: g.%sObject(&g.%s{R: d}),\n\t\tMake: func(s bus.Session, p bus.Proxy) interface{} { return g.Make%s(s, p) },\n\t\tActions: []rt.Action{\n",
-			it.Name, fmt.Sprint(ii), it.Name, tn, cleanName(it.Name))
+			it.Name, fmt.Sprint(ii), stubName(it), tn, cleanName(it.Name))
 		tys := func(a *Action) string {
 			it := make([]string, len(a.Params))
 			for i, x := range a.Params {
